@@ -3,6 +3,8 @@
    usage: judge UNIVERSE CASES   (CASES lines: ID <tab> CASE-sexp <tab> OBSERVATION)
    output: ID <tab> ok | ID <tab> FAIL <tab> tags <tab> detail *)
 open Model
+(* Model defines Coq's string (used by the access tables); here string is OCaml's *)
+type string = Stdlib.String.t
 
 (* ------------------------------------------------------------ s-expressions *)
 type sx = A of string | L of sx list
@@ -334,6 +336,26 @@ let judge_case (u : uni) (case : sx) (obs : sx list) : verdict =
             check_decode u v sid md dobs "corr-";
             if same <> "input-same" then fail v "prop-input-mutated" "DecodeObject modified its input"
         | _ -> fail v "harness" ("unparsable observation"))
+   | L [A "hop"; A tname; A hx] ->
+       let sid = sid_of u tname in
+       let nsid = n_of_int sid in
+       let bs = bytes_of_hex hx in
+       let md = decode_object u.env [] nsid bs (fresh u.env nsid) in
+       (match obs with
+        | dobs :: rest ->
+            check_decode u v sid md dobs "corr-";
+            (match md, rest with
+             | DOk ((mv, _), _), [L [A "size"; A gs]; L [A "ok"; A gn; A gh]] ->
+                 let mb = append_struct u.env nsid mv in
+                 if gs <> gn then fail v "prop-size" (Printf.sprintf "EncodedSize %s but EncodeObject wrote %s" gs gn);
+                 if int_of_string gn <> List.length mb then fail v "corr-size" (Printf.sprintf "re-encoded size: model %d impl %s" (List.length mb) gn);
+                 (match canon_bytes (bytes_of_hex gh), canon_bytes mb with
+                  | Some g, Some m -> if g <> m then fail v "corr-bytes" (Printf.sprintf "re-encoded bytes: model %s impl %s" (hex_of_bytes mb) gh)
+                  | None, _ -> fail v "prop-malformed" ("re-encoded output is not a well-formed struct: " ^ gh)
+                  | _, None -> fail v "model-malformed" "model output does not parse")
+             | DOk _, _ -> fail v "corr-hop" "re-encoding failed in the implementation"
+             | _, _ -> ())
+        | _ -> fail v "harness" "unparsable observation")
    | _ -> fail v "harness" "unknown case");
   v
 
